@@ -89,7 +89,7 @@ namespace
       {
       case 0: domain.select_partitioners(true, true, true, false, 0, 0, cfg.rank_elems); break;
       case 1: domain.select_partitioners(false, false, true, false, 0, 0, cfg.rank_elems); break;
-      case 2: domain.select_partitioners(false, false, true, true, 0.002, 0.002, cfg.rank_elems); break;
+      case 2: domain.select_partitioners(false, false, true, true, 0.0005, 0.0005, cfg.rank_elems); break;
       case 3: domain.select_partitioners(false, false, true, false, 0, 0, 1);
         domain.use_explicit = true; domain.explicit_level = cfg.assign_level; domain.explicit_seed = cfg.assign_seed; domain.explicit_mode = cfg.adapt; break;
       }
@@ -292,45 +292,6 @@ namespace
     }
   };
 
-  wc::WorldCfg draw_cfg()
-  {
-    wc::WorldCfg c;
-    static const char* files[5] = {"unit-square-quad.xml", "unit-square-tria.xml", "l-shape-quad.xml", "unit-cube-hexa.xml", "l-shape-tria.xml"};
-    c.mesh = int(sim::cfg_weighted("mesh", {5, 3, 3, 2, 2}));
-    c.mesh_file = files[c.mesh];
-    const bool is3d = (c.mesh == 3);
-    static const int ns[16] = {1, 2, 2, 3, 3, 4, 4, 5, 6, 7, 8, 8, 9, 12, 15, 16};
-    c.n = ns[sim::cfg_int("n_idx", 0, 15)];
-    c.layers = 1;
-    int want_layers = int(sim::cfg_weighted("layers", {6, 3, 1})) + 1;
-    // divisor chain for multi-layered hierarchies
-    std::vector<int> chain{c.n};
-    while(int(chain.size()) < want_layers)
-    {
-      int cur = chain.back(), best = 0;
-      for(int d = cur / 2; d >= 2; --d) if(cur % d == 0) { best = d; if(sim::cfg_int(("div" + std::to_string(chain.size())).c_str(), 0, 1)) break; }
-      if(best < 2) break;
-      chain.push_back(best);
-    }
-    c.layers = int(chain.size());
-    int lmax_cap = is3d ? 2 : 4;
-    c.lvl_max = int(sim::cfg_int("lvl_max", 1, lmax_cap));
-    std::vector<int> lv{c.lvl_max};
-    for(int i = 1; i <= c.layers; ++i) lv.push_back(int(sim::cfg_int(("lvl" + std::to_string(i)).c_str(), 0, lv.back())));
-    std::ostringstream os;
-    os << lv[0];
-    for(int i = 1; i < c.layers; ++i) os << " " << lv[size_t(i)] << ":" << chain[size_t(i)];
-    os << " " << lv.back();
-    c.levels = os.str();
-    c.parti = int(sim::cfg_weighted("parti", {4, 2, 2, 3}));
-    if(c.parti == 3 && c.layers > 1) c.parti = 0;
-    c.assign_seed = (unsigned long long)sim::cfg_int("assign_seed", 0, 1 << 30);
-    c.assign_level = int(sim::cfg_int("assign_level", 0, is3d ? 1 : 2));
-    c.adapt = int(sim::cfg_int("assign_mode", 0, 2));
-    c.rank_elems = int(sim::cfg_weighted("rank_elems", {3, 1, 1})) == 0 ? 1 : int(sim::cfg_int("rank_elems_v", 2, 4));
-    return c;
-  }
-
   template<typename S_>
   void run_world(const wc::WorldCfg& cfg)
   {
@@ -354,8 +315,8 @@ std::string harness_run()
 {
   sim::pthread_model_reset();
   sim::clock_reset();
-  wc::WorldCfg cfg = draw_cfg();
-  static const uint64_t costs[4] = {20000, 100000, 500000, 3000000};
+  wc::WorldCfg cfg = wc::draw_cfg(4, 2);
+  static const uint64_t costs[4] = {200000, 500000, 1000000, 3000000};
   sim::clock_set_read_cost(costs[sim::cfg_int("clock_cost", 0, 3)]);
   CNT = Counters();
   typedef Geometry::ConformalMesh<FEAT::Shape::Hypercube<2>> Quad;
